@@ -4,12 +4,12 @@ From FS Require Import Model.Ledger Proofs.LedgerProofs Corr.C19.
 (* hedge attempts: with the result channel's buffer of one, in EVERY interleaving of any number of finishing attempts
    with the main loop's receives - including a main loop that has already returned and never receives - no attempt
    goroutine blocks on its send, so each one ends when its inner call returns *)
-Theorem C19_hedge_send_never_blocks : forall cap tr, 1 <= cap -> hs_blocked (h_run cap tr) = 0.
+Theorem C19_hedge_send_never_blocks : forall cap tr, (1 <= cap)%nat -> hs_blocked (h_run cap tr) = 0%nat.
 Proof. exact hedge_send_never_blocks. Qed.
 Print Assumptions C19_hedge_send_never_blocks.
 
 (* the buffer is necessary *)
-Theorem C19_unbuffered_channel_leaks : hs_blocked (h_run 0 [HFinish true]) = 1.
+Theorem C19_unbuffered_channel_leaks : hs_blocked (h_run 0 [HFinish true]) = 1%nat.
 Proof. exact unbuffered_channel_leaks. Qed.
 Print Assumptions C19_unbuffered_channel_leaks.
 
